@@ -97,28 +97,11 @@ impl Number {
     /// converting the resulting BigRational into the most appropriate
     /// Number type.
     pub fn parse_rational(text: &str, radix: u32) -> Option<Number> {
-        match Rational32::from_str_radix(text, radix) {
-            Ok(num) => {
-                if num.is_integer() {
-                    Some(Number::from(num.to_i64().unwrap()))
-                } else {
-                    Some(num.into())
-                }
-            }
-            Err(_) => match BigRational::from_str_radix(text, radix) {
-                Ok(num) => {
-                    if num.is_integer() {
-                        match num.to_i64() {
-                            Some(num) => Some(num.into()),
-                            None => Some(num.to_integer().into()),
-                        }
-                    } else {
-                        Some(num.to_f64().unwrap_or(f64::NAN).into())
-                    }
-                }
-                Err(_) => None,
-            },
-        }
+        // Parsed with unbounded integers: the 32 bit rational parser overflows on
+        // spellings such as 1/-2147483648 while reducing them.
+        BigRational::from_str_radix(text, radix)
+            .ok()
+            .map(Number::from_big_rational)
     }
 
     pub fn to_usize(&self) -> Option<usize> {
